@@ -119,6 +119,17 @@ func c01Gen(tier string, emit func(any)) {
 			}
 			variants = append(variants, variant{"mv-ident", []model.MetaVar{{Name: "n", Kind: "identifier"}}, wordRe(w).ReplaceAllString(k.Src, "n"), plus})
 		}
+		// hole sweep: every single sub-expression as expression metavariable, every identifier as identifier metavariable
+		for _, h := range gen.MetaHoles(k.Kind, k.Src) {
+			if k.Kind == "expr" && h.Src == h.MvName {
+				continue // the pattern would be a bare metavariable
+			}
+			p2 := plus
+			if k.Kind == "expr" && h.MvKind == "expression" {
+				p2 = "mark(qx)"
+			}
+			variants = append(variants, variant{"hole:" + strings.TrimPrefix(h.What, "#0/"), []model.MetaVar{{Name: h.MvName, Kind: h.MvKind}}, h.Src, p2})
+		}
 		muts := gen.Mutants(k.Kind, k.Src)
 		for _, va := range variants {
 			lines := append(c01Lines("-", va.src), c01Lines("+", va.plus)...)
